@@ -27,7 +27,7 @@ ASSUMPTIONS = [
 ]
 BUDGET = {"quick": 80, "thorough": 900}
 ROUNDS = {"thorough": 8}
-FLOORS = {"overlay.C11.recomputed": {"quick": 50, "thorough": 800}, "operations": {"quick": 3000, "thorough": 30000}, "comparisons": {"quick": 10000, "thorough": 100000}, "graphs": 7, "op_kinds": 8,
+FLOORS = {"overlay.C11.recomputed": {"quick": 50, "thorough": 800}, "operations": {"quick": 3000, "thorough": 30000}, "comparisons": {"quick": 10000, "thorough": 100000}, "graphs": 8, "op_kinds": 8,
           "handlers_reached": 15}
 
 OPS = ["assign", "assign", "assign", "assign-view", "assign-cat", "assign-transformed", "sample", "rsample", "operator-accept", "operator-reject", "data-edit", "requires-grad"]
